@@ -85,6 +85,10 @@ def choose_inputs(ctx, suite):
     return out
 
 
+# method sets of the failing writer: the code may duck-type its writer (Bytes(), WriteString, ReadFrom, ResponseWriter)
+SHAPES = ['', 'bytes', 'stringwriter', 'readfrom', 'response', 'all']
+
+
 def make_cases(ctx, inputs, trunc):
     rnd = ctx.rnd
     cases = []
@@ -103,16 +107,21 @@ def make_cases(ctx, inputs, trunc):
             done.add((t, s))
             reg = base.REGS[j % 3]
             cases.append(dict(id=len(cases), mode='plain', mt=base.mt_for(t, reg, rnd, params=False), reg=reg, enum='sink',
-                              stride=1 if len(s) <= 400 else 4, chunks=[], tag='trunc:' + t, **{'in': list(s)}))
+                              stride=1 if len(s) <= 400 else 4, chunks=[], tag='trunc:' + t, wshape=SHAPES[j % len(SHAPES)], **{'in': list(s)}))
     for t in ORDER:
         for j, s in enumerate(inputs[t]):
             reg = base.REGS[j % 3]
             mt = base.mt_for(t, reg, rnd, params=(j % 3 == 0))
             stride = 1 if len(s) <= (48 if quick else 400) else max(2, len(s) // (24 if quick else 200))
-            cases.append(dict(id=len(cases), mode='plain', mt=mt, reg=reg, enum='both', stride=stride,
+            cases.append(dict(id=len(cases), mode='plain', mt=mt, reg=reg, enum='both', stride=stride, wshape=SHAPES[(j + 1) % len(SHAPES)],
                               chunks=base.rand_partition(len(s), rnd) if j % 2 else [], tag=t, **{'in': list(s)}))
+            if j < (6 if quick else 10 ** 9):
+                # the same input against every writer shape (sink faults only)
+                for sh in SHAPES[1:]:
+                    cases.append(dict(id=len(cases), mode='plain', mt=mt, reg=reg, enum='sink', stride=stride, wshape=sh, chunks=[],
+                                      tag='shape:' + t, **{'in': list(s)}))
             if not quick or j % 2 == 0:
-                cases.append(dict(id=len(cases), mode='writer', mt=mt, reg=reg, enum='sink', stride=stride,
+                cases.append(dict(id=len(cases), mode='writer', mt=mt, reg=reg, enum='sink', stride=stride, wshape=SHAPES[j % len(SHAPES)],
                                   chunks=base.rand_partition(len(s), rnd), tag=t, **{'in': list(s)}))
             if not quick or j % 3 == 0:
                 cases.append(dict(id=len(cases), mode='reader', mt=mt, reg=reg, enum='src', stride=stride if not quick else max(stride, 2),
@@ -124,7 +133,7 @@ def make_cases(ctx, inputs, trunc):
 def explicit_case(cases, rec):
     c = cases[rec['cid']]
     d = dict(id=0, mode=rec['mode'], mt=rec['mt'], reg=c['reg'], chunks=rec['chunks'], sf=rec['sf'], short=rec['short'],
-             serr=rec['serr'], ff=rec['ff'], sum=True, **{'in': c['in']})
+             serr=rec['serr'], ff=rec['ff'], wshape=rec.get('wshape', ''), sum=True, **{'in': c['in']})
     if 'rbufs' in c:
         d['rbufs'] = c['rbufs']
     return d
@@ -132,15 +141,17 @@ def explicit_case(cases, rec):
 
 def identity(c):
     d = {k: c[k] for k in ('mode', 'mt', 'reg', 'chunks', 'rbufs', 'sf', 'short', 'serr', 'ff') if k in c}
+    if c.get('wshape'):
+        d['wshape'] = c['wshape']
     d['in'] = bytes(c['in']).decode('latin1')
     return d
 
 
 def describe(c, rec, why):
     inp = bytes(c['in']).decode('latin1')
-    return ('%s(%s) input=%r (%d bytes) source fails after %s bytes%s (%s), sink fails from call %s: returned %s %r, '
+    return ('%s(%s)%s input=%r (%d bytes) source fails after %s bytes%s (%s), sink fails from call %s: returned %s %r, '
             'delivered %d of %d bytes, panic=%s blocked=%s: %s'
-            % (c['mode'], c['mt'], inp[:60], len(inp), c['sf'] if c['sf'] >= 0 else 'never', ' with short final read' if c.get('short') else '',
+            % (c['mode'], c['mt'], ' writer shape ' + c['wshape'] if c.get('wshape') else '', inp[:60], len(inp), c['sf'] if c['sf'] >= 0 else 'never', ' with short final read' if c.get('short') else '',
                c.get('serr', 'plain'), c['ff'] or 'never', rec.get('ret'), rec.get('rett', '')[:60], rec.get('deln', 0), rec.get('wantn', 0),
                rec.get('panic'), rec.get('blocked'), why))
 
@@ -206,7 +217,7 @@ def mc_jobs(ctx, tier):
                 raise vlib.Infra('wrong design %s not rejected by %s (got %s)\n%s' % (name, expect, viol, r['out'][-1500:]))
             return {'wrong_design_' + name: 'rejected by ' + sorted(viol & set(expect))[0]}
         return f
-    muts = [m for m in base.MUTANTS if m[0] in ('noprobe', 'eofswallow', 'noerr', 'addinside')]
+    muts = [m for m in base.MUTANTS if m[0] in ('noprobe', 'eofswallow', 'noerr', 'addinside')]   # (dirtybuf is C12's)
     return [('main', main)] + [('mut_' + n, mut(n, e)) for n, e in muts]
 
 
